@@ -154,9 +154,15 @@ def check(repo: Repo, R) -> None:
     own = all(_assigned(f"self.{a}", ("dict()", "{}")) for a in ("modules_by_id", "modules_by_name", "ext_modules")) and _assigned("self.pkg", ("vckt.Package(domain=domain or '')",))
     R.check(not mut and fresh and own, rule, f"{F_EXPORT}::module-state", F_EXPORT, f"no module-level mutable state in the exporter ({not mut}{'' if not mut else ': ' + str(mut)}); each to_proto call builds its own ProtoExporter ({fresh}) with its own maps and package ({own})",
             why="a second to_proto call returns modules of the first one (or refuses names it has seen before)")
+    c13.no_value_memo(repo, R, rule)
     fxp = repo.func(F_EXPORT, "ProtoExporter.export")
     ok = any(isinstance(n, ast.For) and ast.unparse(n.iter) == "self.tops" and bool(pat.find("self.export_module(m)", n)) for n in au.walk_no_nested(fxp.node))
     R.check(ok, rule, key_of(fxp), fxp.site, f"every top-level module is exported: {ok}", why="some tops are missing from the package")
+    from . import c02, c03
+    c03.slice_inner(repo, shared.Retag(R, lambda r: "C06.7-targets-stay-inside-widths" if "index-bounds" in r else None,
+                                       "a connection target names a bit outside its signal (e.g. bus[w] exported as slice [w:w] of a w-bit bus)"), "C02")
+    c02.live_passes(repo, shared.Retag(R, lambda r: "C06.8-post-flattening-checks-live",
+                                       "the flattened design is exported without its final connection checks: instances with unconnected or mis-sized ports reach the package"))
     R.floor("C06.1-definition-before-use", 5)
     R.floor("C06.5-instance-targets", 16)
     R.floor("C06.4-per-kind-views-disjoint", 2)
